@@ -27,7 +27,7 @@ def plan(ctx):
                               bounds=f"line, depth unbounded; matched text from {pool!r} (index symbolic)",
                               desc=f"{name}: line counter advances by the line feeds in the matched text"))
     obs.append(Obligation("p_error.message", "xh", "c20", "p_error_message", timeout=T, extra={"format_stub": False},
-                          bounds="token line and lexer line 1..5 (formatted, hence bounded), token text from 3 samples",
+                          bounds="token line and lexer line 1..5 (formatted, hence bounded), token from 8 (type, text) samples incl. NUMBER (Decimal value) and the ';' separator",
                           desc="message contains the token text and the token's OWN line"))
     obs.append(Obligation("p_error.eof", "xh", "c20", "p_error_eof", timeout=T, extra={"format_stub": False}, bounds="-",
                           desc="p_error(None) reports an unexpected end of input"))
